@@ -263,4 +263,8 @@ def subchecks():
     ]
 
 
-SELECTORS = {}
+def _sel_nan(case, disc):
+    return "nan" in disc["detail"].lower() or "cannot be empty" in disc["detail"]
+
+
+SELECTORS = {"nan_probabilities": _sel_nan}
